@@ -590,6 +590,15 @@ def suite_trsm(g, n, big=False):
         op = rng.choice(['trsm_ll', 'trsm_ul', 'trsm_ur', 'trsm_lr'])
         nn = edim(g, big)
         w = edim(g, big)
+        if big and op in ('trsm_ll', 'trsm_ul') and rng.random() < 0.3:
+            # right-hand sides whose rows are a whole number of 8-word groups (the 8-fold unrolled word loops end exactly
+            # at the last word) with a partial last word; enough rows for the table-based paths
+            w = 512 * rng.randint(1, 2) - rng.randint(0, 63)
+            nn = rng.choice([65, 100, 130, 200, 257])
+        if op in ('trsm_ur', 'trsm_lr'):
+            # the column-wise substitution form of the model costs rows * n^2 bit operations; every regime of the right
+            # variants is entered below 400 columns in the small-cache builds
+            nn, w = min(nn, 400), min(w, 300)
         upper = op in ('trsm_ul', 'trsm_ur')
         T = g.mat(nn, nn, tri_rows(g, nn, upper, junk=rng.random() < 0.7))
         if op in ('trsm_ll', 'trsm_ul'):
@@ -727,6 +736,12 @@ def suite_ple_recursive(g, n, ops=('ple', 'pluq', 'echelonize_pluq', 'kernel', '
         r1 = rng.choice([0, 1, 63, 64, 65, 128, 130, min(r, n1) // 2, min(r - 1, n1)])
         r1 = max(0, min(r1, n1, r - 1))
         r2 = rng.choice([0, 1, 70, 128, 130, 200])
+        if rng.random() < 0.3:
+            # the right half supplies (almost) all its columns as pivots while the left half is short of many: after the
+            # compression of L whole words up to the last one are cleared
+            r2 = c - n1 - rng.randint(0, 14)
+            r1 = rng.choice([0, 1, 30, 64, 100])
+            r = max(r, r1 + r2 + rng.randint(3, 40))
         r2 = max(0, min(r2, c - n1, r - r1))
         left = sorted(rng.sample(range(n1), r1)) if r1 else []
         right = sorted(rng.sample(range(n1, c), r2)) if r2 else []
@@ -735,7 +750,7 @@ def suite_ple_recursive(g, n, ops=('ple', 'pluq', 'echelonize_pluq', 'kernel', '
         if rng.random() < 0.3:
             z = rng.randint(1, 5)
             rows = rows[:-z] + [0] * z
-        M = g.mat(r, c, rows, place=g.place(window=(rng.random() < 0.3)))
+        M = g.mat(r, c, rows, place=g.place(window=(True if g.force_window else rng.random() < 0.3)))
         if op in ('ple', 'pluq'):
             g.add(op, '%s %s %s %d' % (M, junk_perm(g, r), junk_perm(g, c), rng.choice([0, 64, 256])), r=r, c=c, r1=r1, r2=r2)
         elif op == 'echelonize_pluq':
